@@ -75,6 +75,7 @@ def cases(tier):
         yield {"k": "rel", "base": base}
     yield {"k": "include"}
     yield {"k": "repeat"}
+    yield {"k": "literal-text"}
 
 
 def run_family(r, mn_ops, word_of, valid, drange, sp, tag):
@@ -108,6 +109,31 @@ def run_family(r, mn_ops, word_of, valid, drange, sp, tag):
 
 def check(case, r, tier):
     k = case.get("k") or case.get("kind")
+    if k == "literal-text":
+        # what stands *inside* a character literal is text, not syntax: a '(' or ':' there must not change how the target is read
+        for mn in ("br", "bne", "sob r1,"):
+            for tmpl in ("1: nop\nnop\n%s 1+'%s-'%s\n", "1: nop\n%s 1 + \"%s%s - \"%s%s\n", "lab: nop\nnop\n%s lab+'%s-'%s\n", "2: nop\n%s 2+<'%s-'%s>\n"):
+                outs = {}
+                for ch in ("a", "(", ":", ")", ";"):
+                    n = tmpl.count("%s") - 1
+                    text = ".link 1000\n" + tmpl % ((mn,) + (ch,) * n)
+                    o = driver.assemble([("b.mac", text)])
+                    outs[ch] = (o.status, o.code, tuple(sorted(set(o.error_kinds()))), text)
+                    r.ran(o.cls(), key=("literal-text", mn, tmpl, ch))
+                ref = outs["a"]
+                for ch, got in outs.items():
+                    if got[:3] != ref[:3]:
+                        r.violation("branch-target-depends-on-literal-text:%s-vs-%s" % (ref[0], got[0]),
+                                    "%s with the character literal '%s gives another result than with 'a (both differences are zero)" % (mn, ch),
+                                    {"k": "text-pair", "a": ref[3], "b": got[3]}, {"status": ref[0], "bytes": ref[1].hex() if ref[1] else None}, {"status": got[0], "bytes": got[1].hex() if got[1] else None, "errors": got[2]})
+        return
+    if k == "text-pair":
+        a = driver.assemble([("b.mac", case["a"])])
+        b = driver.assemble([("b.mac", case["b"])])
+        r.ran(a.cls(), key=None)
+        if (a.status, a.code) != (b.status, b.code):
+            r.violation("branch-target-depends-on-literal-text:replay", "different results", case, a.brief(), b.brief())
+        return
     if k == "single":
         return batch.replay_single(case, r)
     if k == "error":
